@@ -103,10 +103,16 @@ let rel_of_string s = match s with
   | "lt" -> RLt | "leq" -> RLeq | "eq" -> REq | "geq" -> RGeq | "gt" -> RGt | _ -> failwith ("bad relation " ^ s)
 let lit_of_args v sg : lit = (nat_of_int (int_of_string v), sg = "1")
 
-type 'd theory = { mutable st : 'd state; stp : 'd state -> 'd op -> ('d state * 'd res) * event list; rd : string -> 'd; pd : 'd -> string }
+(* the guard of the guarded-theory theorems (smt/DlGuard.v idl_gp), evaluated before every theory propagation *)
+let g_evals = ref 0 and g_fails = ref 0
+type 'd theory = { mutable st : 'd state; stp : 'd state -> 'd op -> ('d state * 'd res) * event list; rd : string -> 'd; pd : 'd -> string;
+                   gd : ('d state -> lit -> bool) option }
 
 let exec (t : 'd theory) (args : string list) : string =
   let one (o : 'd op) : string * bool =
+    (match o, t.gd, t.st.prop_q with
+     | OPropOne, Some g, p :: _ -> incr g_evals; if not (g t.st p) then incr g_fails
+     | _ -> ());
     let ((s', r), evs) = t.stp t.st o in
     t.st <- s';
     let cf = (match r with RProp (false, _) -> true | _ -> false) in
@@ -146,9 +152,9 @@ let exec (t : 'd theory) (args : string list) : string =
   | _ -> "?unknown"
 
 let () =
-  let idl = ref { st = idl_init false (nat_of_int 16); stp = idl_step false; rd = z_of_string; pd = string_of_z } in
+  let idl = ref { st = idl_init false (nat_of_int 16); stp = idl_step false; rd = z_of_string; pd = string_of_z; gd = Some (idl_gp_self false) } in
   let sat = ref false in
-  let rdl = ref { st = rdl_init false (nat_of_int 16); stp = rdl_step false; rd = qd_of_string; pd = string_of_qd } in
+  let rdl = ref { st = rdl_init false (nat_of_int 16); stp = rdl_step false; rd = qd_of_string; pd = string_of_qd; gd = None } in
   let cur = ref 0 in
   let guard = ref false in
   (try
@@ -156,15 +162,16 @@ let () =
        let line = input_line stdin in
        match List.filter (fun s -> s <> "") (String.split_on_char ' ' line) with
        | [] -> print_endline ""; print_endline ""
+       | ["guardstats"] -> Printf.printf "guardstats %d %d\n\n%!" !g_evals !g_fails; g_evals := 0; g_fails := 0
        | ["guard"; g] -> guard := (g = "1"); print_endline "ok"; print_endline ""
        | ["variants"; g; sa] -> guard := (g = "1"); sat := (sa = "1"); print_endline "ok"; print_endline ""
        | ["init"; "idl"; sz] ->
          cur := 0;
-         idl := { st = idl_init !sat (nat_of_int (int_of_string sz)); stp = idl_step !sat; rd = z_of_string; pd = string_of_z };
+         idl := { st = idl_init !sat (nat_of_int (int_of_string sz)); stp = idl_step !sat; rd = z_of_string; pd = string_of_z; gd = Some (idl_gp_self !sat) };
          print_endline "ok"; print_endline (string_of_state !idl.pd !idl.st)
        | ["init"; "rdl"; sz] ->
          cur := 1;
-         rdl := { st = rdl_init !guard (nat_of_int (int_of_string sz)); stp = rdl_step !guard; rd = qd_of_string; pd = string_of_qd };
+         rdl := { st = rdl_init !guard (nat_of_int (int_of_string sz)); stp = rdl_step !guard; rd = qd_of_string; pd = string_of_qd; gd = None };
          print_endline "ok"; print_endline (string_of_state !rdl.pd !rdl.st)
        | args ->
          (try
